@@ -3,12 +3,13 @@
 use uiua_parser::Primitive;
 fn main() {
     for p in Primitive::all() {
-        if let Primitive::Sys(_) = p {
-            continue;
-        }
         let a = p.args().map(|x| x as i64).unwrap_or(-1);
         let o = p.outputs().map(|x| x as i64).unwrap_or(-1);
         let m = p.modifier_args().map(|x| x as i64).unwrap_or(-1);
+        if let Primitive::Sys(op) = p {
+            println!("Sys_{:?} {} {} {}", op, a, o, m);
+            continue;
+        }
         println!("{:?} {} {} {}", p, a, o, m);
     }
 }
